@@ -170,7 +170,9 @@ claim('C14',
       'function per package under its quoted name, the require function, '
       'the main program), and package graphs (repeated, shared, chained, '
       'cyclic requires: every name located, parsed and stored once; bad '
-      'names and missing files refused).',
+      'names and missing files refused), and the load-path lookup on a '
+      'stand-in file system with directories among the candidates (what it '
+      'returns is a file).',
       'Decided: the necessary conditions above; the strip for the listed '
       'package shapes with every token spelling symbolic (sampled in the '
       'statement layout, exhaustive in the token texts). Not decided: '
@@ -396,7 +398,9 @@ claim('C04',
       'sums of the writer\'s region order; the `:c:` header written is the '
       'header consumed; a raising size test dominates the code-area store; '
       'kind inference shows the raw branch receives bytes; the label is '
-      'opened read-only before any output.',
+      'opened read-only before any output; the code area is evaluated with '
+      'a stand-in compressor that, like compress_code, appends to a mutable '
+      'buffer it is handed.',
       'Decided: the necessary conditions above. Not decided: that the file '
       'is a valid PNG (pypng), CR/trailing-newline normalisation equalities, '
       '.p8 -> .p8.png -> .p8 for concrete carts, the _update60 suffix.',
@@ -419,7 +423,9 @@ claim('C05',
       'decoder copy discipline; and what decompress_code does AFTER decoding, '
       'by evaluating it on hand-built well-formed streams (0x00-escaped '
       'literals) of texts that meet each post-processing step: it must '
-      'return the text. Two open known findings there: a text that itself '
+      'return the text; likewise four streams with back-references '
+      '(overlapping, not overlapping, followed by literals, running past the '
+      'header length): byte-wise copy, stop at the header length. Two open known findings there: a text that itself '
       'ends with PICO8_FUTURE_CODE1 / PICO8_FUTURE_CODE2 is cut by the '
       'suffix stripping (known_findings.json; the NUL stripping found by the '
       'same rule is repaired, /repo 910fadd). NOT decided: '
